@@ -11,7 +11,8 @@ def _nontrivial(req, resp):
 
 
 def run(ctx):
-    if not ctx.build_harness():
+    # only the shared core + this property's Go files: other people's half-edited files cannot break the check
+    if not ctx.build_harness(["c14.go", "gen_tagchars.go"]):
         return
     # the toolchain's tag characters and strings.Fields separators, measured on every run
     ctx.regen([("Oracle/TagChars", "TagChars")])
@@ -23,8 +24,7 @@ def run(ctx):
         ctx.audit("C14")
     if ctx.tier == "thorough":
         ctx.leanchecker(THEOREM_MODULES)
-    # Known findings (F8, F8b) hit a sizeable share of the generated formulas; never let them
-    # crowd a new violation out of the report.
+    # never let known findings crowd a new violation out of the report
     big = 10 ** 7
     ctx.run_corpus("c14", nontrivial=_nontrivial, max_report=big)
     if ctx.replay:
@@ -55,8 +55,8 @@ def run(ctx):
         "expressions synthesised from `// +build` lines): not proved, measured on every generated formula by evaluating the "
         "real parse of the real header on all assignments",
         "the file selection of go/build is that of a zero build.Context plus BuildTags (no GOOS/GOARCH/compiler/release/cgo tags)",
-        "tags_equiv needs: no empty option (F8), `ignore` off when a constraint line is empty (F8b), <= 101 terms per line (F8c), "
-        "2*sum(max 1 terms-per-line) <= 1001 (sufficient for the parser's 1000-operand limit, F8d)",
+        "tags_equiv needs beyond Validate: <= 101 terms per line (F8c), 2*sum(terms-per-line) <= 1001 (sufficient for the "
+        "parser's 1000-operand limit, F8d); empty options / empty lines are invalid since /repo 0ad3cb8 (F8, F8b fixed)",
     ]
     ctx.trusted += [
         "Oracle.tagRanges / Oracle.spaceCodes are measured from go/build/constraint.Parse and strings.Fields of the installed "
